@@ -35,7 +35,10 @@ CLAIMED = {
              "end time is the rational comparison; the sample-count loop returns exactly the ticks before the end and terminates; "
              "the sampled out-state carries the sample time on every moving unit. Binary64 reading of the same clock compared bit for "
              "bit with the real handlers (unit level, up to 50k ticks) and with sample times/counts of recorded real runs; oracle on "
-             "recorded writes (time stamps equal sample time bit for bit, written state = committed state, count, end time).",
+             "recorded writes (time stamps equal sample time bit for bit, written state = committed state, count, end time, nothing "
+             "committed after the end time), also on dump/resume histories: runs with a dumping tagger (the shipped [Dumping] wiring and "
+             "harness-built ones) are dumped, every dump is resumed through resume.main(), and 'run up to the dump + resumed run' is "
+             "judged as one history (sample k at k*interval across dumps, sample count, end at the end time).",
         note="The float clause (one rounding per step, not growing with k beyond that) is measured by a Fraction oracle on the "
              "implementation and proved in the rounding-abstract reading of C14 where available. Ties between a sample time and the "
              "end time are not judged.",
@@ -122,7 +125,10 @@ CLAIMED = {
              "shipped configurations (C potentials, cells, composite objects; heap and list scheduler) are dumped at every dumping event, "
              "each dump is resumed in a fresh interpreter through the repository's own resume.main(), and the continuation is compared "
              "bit for bit (handlers, candidate times, out-states, whole global state, trash lists, samples, final random state) with "
-             "the uninterrupted run; the same run without the dumping tagger is compared with the run minus its dumping events.",
+             "the uninterrupted run; the same run without the dumping tagger is compared with the run minus its dumping events. "
+             "Scheduler level: real HeapScheduler/ListScheduler objects after random histories at large run times: every pending heap "
+             "entry survives a pickle round trip bit for bit in its slot (code side of the premise of pickle_obsEq) and original and "
+             "unpickled scheduler answer random futures with candidates within a few ulps of old ones identically.",
         note="dill's faithfulness on ordinary Python objects and the re-construction of the C potentials are exercised by the real runs, "
              "not modelled. The transparency clause is compared up to the first tie of two candidate times.",
         technique="Lean 4 proof (observational-equivalence lemma) + differential replay of dumped/resumed real runs",
@@ -183,7 +189,10 @@ CLAIMED = {
              "arithmetic): positive time, unit stays in its cell before it, lands in the neighbour cell, snap agrees with the time slice. "
              "Correspondence: real class on random configurations and update sequences (multiset compare per cell), real "
              "CellBoundaryEventHandler bit-exact, replay of the call sequence of real cell runs; oracle: occupancy recomputed from "
-             "scratch from true positions after every update of real runs + history clause.",
+             "scratch from true positions after every update of real runs + history clause; the premise of the link theorem "
+             "SystemLinks.active_unit_stays_in_recorded_cell (exactly one pending cell-boundary candidate of an occupancy while it records "
+             "an active unit) is checked after every leg of every shipped cell configuration; when it fails, long runs of that "
+             "configuration are searched for an active unit that really leaves its recorded cell without a cell-boundary event.",
         note="The premise 'the active unit leaves its recorded cell only by a cell-boundary event' is a hypothesis of reach_inv (it needs "
              "the scheduler/system model) and is measured by the run-level oracle; negative-direction boundary theorem is _partial "
              "(one-float sliver between own cell_min and the neighbour's cell_max in exact arithmetic).",
@@ -214,9 +223,10 @@ CLAIMED = {
              "seeded ordered sub-list of in-flight pipes): every leg compared bit for bit (handler, candidate times, out-state, global "
              "state, trash list, samples); no worker alive after post_run; a run that does not finish is a deadlock.",
         note="OS-level behaviour (pipes, events, lost wake-ups, reaping) is exercised, not modelled. Quantifier: configurations whose "
-             "pre-computable out-states draw no random numbers. Known finding: when two handlers started in one leg report EQUAL candidate "
-             "times the commit depends on the arrival order (schedulers return the first pushed); the refinement theorem carries the "
-             "no-tie hypothesis (counterexample theorem tie_breaks_refinement).",
+             "pre-computable out-states draw no random numbers. The tie finding (two handlers started in one leg report EQUAL candidate times: the commit "
+             "depended on the arrival order) was repaired in /repo (fix 93334e5: times are pushed after the receive loop in activator "
+             "order); mp_refines_sp holds without a no-tie hypothesis; the counterexample theorem tie_breaks_refinement is kept for the old "
+             "arrival-order variant only.",
         technique="Lean 4 proof (stage-machine refinement) + trace validation + schedule-controlled differential runs against the single-process mediator",
         ref="§5 C20"),
     "C02": dict(
